@@ -225,6 +225,11 @@ def check(ck):
             n6 += 1
             ea = [k for k in c.keywords if k.arg == "ensure_ascii"]
             okk = not ea or (isinstance(ea[0].value, ast.Constant) and ea[0].value.value is True)
+            other = [k.arg for k in c.keywords if k.arg not in ("ensure_ascii", "separators", "indent")]
+            ck.require(not other and len(c.args) == 1, "C02.6", "%s: `%s` options" % (q.fn(fi), dump(c)), "json.dumps(obj) with default behaviour",
+                       "the default backend is called with %s: options such as sort_keys / skipkeys / default / allow_nan / cls change which replies "
+                       "can be serialised (sort_keys=True fails on a result dictionary with keys of mixed types, after the per-request conversion "
+                       "succeeded: the whole reply degrades to one error with id null)" % (other or "extra positional arguments"), q.loc(fi, c))
             ck.require(okk and not any(k.arg is None for k in c.keywords), "C02.6", "%s: `%s`" % (q.fn(fi), dump(c)), "ASCII-only output (ensure_ascii left True)",
                        "the default backend emits raw non-ASCII characters (`%s`): a reply echoing a lone surrogate (\\ud800 in an id, a method name or a "
                        "result) cannot be encoded by to_bytes() in do_POST, which raises outside its catch-all - the request is not answered" % dump(c),
